@@ -1004,6 +1004,8 @@ class OpsMixin:
             raise Unsupported(f"module attribute {obj.name}.{attr}")
         if isinstance(obj, SStub) and attr in obj.attrs:
             return obj.attrs[attr]
+        if isinstance(obj, SClosure) and attr in getattr(obj, "attrs", {}):
+            return obj.attrs[attr]
         if isinstance(obj, SExc):
             if attr == "args":
                 return tuple(obj.args)
@@ -1085,6 +1087,10 @@ class OpsMixin:
 
     def setattr_value(self, obj, attr, v):
         obj = self.resolve(obj)
+        if isinstance(obj, SClosure):
+            obj.attrs = getattr(obj, "attrs", {})
+            obj.attrs[attr] = v
+            return
         if not isinstance(obj, SObj):
             raise Unsupported(f"attribute assignment on {pytype_name(obj)}")
         self.note_write(obj, attr)
